@@ -38,6 +38,7 @@ type hookProgram struct {
 	CustomizeBody    string  `json:"customizeBody"` // answer of the customize hook (default: no related resources)
 	Reverse          bool    `json:"reverse"`       // template: list the children highest index first
 	FinalizedForImage string `json:"finalizedForImage"` // template, finalizing: finalized iff the parent (revision) has this image
+	FinalizeKeeps     bool   `json:"finalizeKeeps"`     // template, finalizing: keep asking for the children (step-down not started)
 }
 
 func (h *hookProgram) answer(url string, req J) (int, map[string]string, []byte, bool) {
@@ -136,7 +137,9 @@ func (h *hookProgram) templateAnswer(req J) []byte {
 		resp["status"] = J{"replicas": n}
 	}
 	if finalizing, _ := req["finalizing"].(bool); finalizing {
-		resp["children"] = A{}
+		if !h.FinalizeKeeps {
+			resp["children"] = A{}
+		}
 		observed := 0
 		if cm, ok := req["children"].(map[string]interface{}); ok {
 			for _, g := range cm {
@@ -775,7 +778,11 @@ func TestVerif_Composite(t *testing.T) {
 		}
 		id := fmt.Sprintf("s%d", i)
 		replay := J{"scenario": sc, "features": sc.Features, "results": roundResults(rec), "trace": traceSummary(rec)}
-		if err := w.Add(id, coqCase(rec), prop+"_check", replay); err != nil {
+		checkFn := prop + "_check"
+		if prop == "C10" {
+			checkFn = "C10_check_r"
+		}
+		if err := w.Add(id, coqCase(rec), checkFn, replay); err != nil {
 			t.Fatal(err)
 		}
 		w.Count("family-" + sc.Family)
